@@ -197,10 +197,16 @@ func TestVerifC12(t *testing.T) {
 	}
 
 	// ---- (1) real MTCPServer + real MTCPClient over loopback; the client's connection is tapped; keep-alives injected
-	port := c12FreePort()
-	serv := NewMTCPServer(fmt.Sprintf("127.0.0.1:%d", port), bpv7.MustNewEndpointID("dtn://mtcpcla/"), false)
-	if err, _ := serv.Start(); err != nil {
-		t.Fatal(err)
+	var port int
+	var serv *MTCPServer
+	for try := 0; ; try++ { // the free port is found by listening and closing: another process may grab it in between
+		port = c12FreePort()
+		serv = NewMTCPServer(fmt.Sprintf("127.0.0.1:%d", port), bpv7.MustNewEndpointID("dtn://mtcpcla/"), false)
+		if err, _ := serv.Start(); err == nil {
+			break
+		} else if try > 20 {
+			t.Fatal(err)
+		}
 	}
 	recv := make(chan []byte, 1024)
 	servDone := make(chan struct{})
@@ -370,6 +376,9 @@ func TestVerifC12(t *testing.T) {
 			if run%8 == 7 && r.intn(3) == 0 {
 				// the announced length is not what follows (the server does not use it to delimit)
 				hd = c12Head(1 + r.intn(2*len(enc)))
+				if r.intn(3) == 0 {
+					hd = c12Head(1 + r.intn(3)) // the smallest non-zero announcements: still "a bundle follows"
+				}
 			}
 			stream = append(stream, hd...)
 			stream = append(stream, enc...)
@@ -387,6 +396,20 @@ func TestVerifC12(t *testing.T) {
 			label = "bad"
 		}
 		fmt.Fprintf(w, "mtcp raw %s %s %s %s\n", label, c12Hex(stream), c12HexList(sent), c12HexList(got))
+	}
+
+	// announced lengths 1, 2, 3, 23, 24 (any non-zero announcement means "a bundle follows"; its value is not used)
+	for _, ann := range []int{1, 2, 3, 23, 24, 255, 256} {
+		_, e1 := c12Bundle(r, r.intn(10))
+		_, e2 := c12Bundle(r, r.intn(10))
+		var stream []byte
+		stream = append(stream, c12Head(ann)...)
+		stream = append(stream, e1...)
+		stream = append(stream, 0x40)
+		stream = append(stream, c12Head(len(e2))...)
+		stream = append(stream, e2...)
+		got := c12Serve(r, stream)
+		fmt.Fprintf(w, "mtcp raw wf %s %s %s\n", c12Hex(stream), c12HexList([][]byte{e1, e2}), c12HexList(got))
 	}
 
 	// ---- (3) connection cut after every byte offset of a short stream (two small bundles, keep-alives around them)
